@@ -55,7 +55,10 @@ def case_strategy(draw, tier):
         rec = draw(genheat.heat_net(max_n=4 if tier == "quick" else 7, allow_oos=True, labels=draw(st.booleans())))
         opts = {"mode": "hydraulics", "iter": 60}
     else:
-        rec, opts = draw(gen.hyd_case(max_n=9 if tier == "quick" else 20, tight=False, allow_lift=draw(st.booleans())))
+        # two junction-pipe valves in parallel at the same pipe end are not generated here: with one of them closed the two
+        # clauses 'a closed valve removes its pipe's edge' and 'graph islands = solver islands' contradict each other
+        rec, opts = draw(gen.hyd_case(max_n=9 if tier == "quick" else 20, tight=False, allow_lift=draw(st.booleans()),
+                                      pi_parallel=False))
         opts["mode"] = "hydraulics"
     rec = make_consistent(rec)
     gopts = {}
